@@ -704,49 +704,56 @@ class ConfigInformation:
     def validate(self):
         """Validate a value"""
         if not self._validated:
+            # Set first (the graph may be cyclic), unset if the validation fails
             self._validated = True
+            try:
+                self._validate()
+            except Exception:
+                self._validated = False
+                raise
 
-            def validate_value(value):
-                """Validate the configurations, including those within lists
-                and dictionaries"""
-                if isinstance(value, Config):
-                    value.__xpm__.validate()
-                elif isinstance(value, list):
-                    for el in value:
-                        validate_value(el)
-                elif isinstance(value, dict):
-                    for el in value.values():
-                        validate_value(el)
+    def _validate(self):
+        def validate_value(value):
+            """Validate the configurations, including those within lists
+            and dictionaries"""
+            if isinstance(value, Config):
+                value.__xpm__.validate()
+            elif isinstance(value, list):
+                for el in value:
+                    validate_value(el)
+            elif isinstance(value, dict):
+                for el in value.values():
+                    validate_value(el)
 
-            # Check each argument
-            for k, argument in self.xpmtype.arguments.items():
-                value = self.values.get(k)
-                if value is not None:
-                    validate_value(value)
-                elif argument.required:
-                    if not argument.generator:
-                        raise ValueError(
-                            "Value %s is required but missing when building %s at %s"
-                            % (k, self.xpmtype, self._initinfo)
-                        )
-
-            # Validate pre-tasks
-            for pre_task in self.pre_tasks:
-                pre_task.__xpm__.validate()
-
-            # Validate init tasks
-            for init_task in self.init_tasks:
-                init_task.__xpm__.validate()
-
-            # Use __validate__ method
-            if hasattr(self.pyobject, "__validate__"):
-                try:
-                    self.pyobject.__validate__()
-                except Exception:
-                    logger.error(
-                        "Error while validating %s at %s", self.xpmtype, self._initinfo
+        # Check each argument
+        for k, argument in self.xpmtype.arguments.items():
+            value = self.values.get(k)
+            if value is not None:
+                validate_value(value)
+            elif argument.required:
+                if not argument.generator:
+                    raise ValueError(
+                        "Value %s is required but missing when building %s at %s"
+                        % (k, self.xpmtype, self._initinfo)
                     )
-                    raise
+
+        # Validate pre-tasks
+        for pre_task in self.pre_tasks:
+            pre_task.__xpm__.validate()
+
+        # Validate init tasks
+        for init_task in self.init_tasks:
+            init_task.__xpm__.validate()
+
+        # Use __validate__ method
+        if hasattr(self.pyobject, "__validate__"):
+            try:
+                self.pyobject.__validate__()
+            except Exception:
+                logger.error(
+                    "Error while validating %s at %s", self.xpmtype, self._initinfo
+                )
+                raise
 
     def seal(self, context: ConfigWalkContext):
         """Seals the object and generate values when needed
